@@ -33,11 +33,16 @@ def content(t, k):
     ids = [1, 2, 3 + k, 10 + t]
     nodes = [{'id': PURL + '%s_%07d' % (pre, i), 'lbl': 'term %d' % i, 'type': 'CLASS'} for i in ids]
     edges = [{'sub': PURL + '%s_%07d' % (pre, i), 'pred': 'is_a', 'obj': PURL + '%s_%07d' % (pre, 1)} for i in ids[1:]]
+    # a second, foreign prefix in the same document: the loader options (prefixes_of_interest) decide what a load returns
+    nodes += [{'id': PURL + 'XX_%07d' % i, 'lbl': 'other %d' % i, 'type': 'CLASS'} for i in (1, 5 + k)]
+    edges += [{'sub': PURL + 'XX_%07d' % (5 + k), 'pred': 'is_a', 'obj': PURL + 'XX_0000001'}]
     # the document is larger than one network read (see Response.read): a member the loader ignores pads it to ~20 KiB
     return json.dumps({'graphs': [{'id': 'x', 'meta': {}, 'nodes': nodes, 'edges': edges}], 'padding': 'x' * 20000}).encode('utf-8')
 
 
-def expected_terms(t, k):
+def expected_terms(t, k, view=0):
+    if view:
+        return ['XX:0000001', 'XX:%07d' % (5 + k)]
     pre = TYPES[t].identifier
     return sorted('%s:%07d' % (pre, i) for i in [1, 2, 3 + k, 10 + t])
 
@@ -232,6 +237,7 @@ class Env:
         open(self.logfile, 'w').close()
         self.releases = [list(r) for r in releases]        # private copy: a history may publish further releases
         self.relative = relative
+        self.views = {}
         if relative:
             os.chdir(self.base)
             self.store_dir = 'store'
@@ -270,9 +276,14 @@ class Env:
         CTX.plan, CTX.gate = plan, gatefn
         try:
             fn = self.store.load_ontology if full else self.store.load_minimal_ontology
-            o = fn(TYPES[t], release, prefixes_of_interest={TYPES[t].identifier})
+            # the same (type, release, entry point) is asked with alternating loader options: the answer must be what a
+            # direct load of the served bytes with THESE options gives
+            key = (t, release, full)
+            view = self.views.get(key, 0) % 2
+            self.views[key] = view + 1
+            o = fn(TYPES[t], release, prefixes_of_interest={'XX'} if view else {TYPES[t].identifier})
             r = release if release is not None else max(self.releases[t])
-            return 1 if sorted(x.identifier.value for x in o.terms) == expected_terms(t, self.releases[t].index(r)) else 4
+            return 1 if sorted(x.identifier.value for x in o.terms) == expected_terms(t, self.releases[t].index(r), view) else 4
         except Fault:
             return 2
         except Exception as e:
